@@ -111,6 +111,8 @@ passes unedited after each -- the four `middleware/proxy` tests that need DNS fa
 | C18 | `ccc461a` `0c1bc9d` | cookies for `http://[2001:db8::1]:8080/` never sent to `http://[2001:db8::1]/`; cookies put into the jar by hand for a host with port / IPv6 literal never returned (found when IPv6 literal hosts were added to `CookieJar.tla`'s host pool) |
 | C18 | `6d15e73` | `AddParams(k: [b, c]); SetParams(k: a)` sent `k=a&k=c`: `SetParam`, `SetParams`, `SetFormData`, `SetFormDataWithMap` (request and client) and `Client.SetHeader` replaced only the first of several values added before, against their documentation (found when `ClientKV.tla` was added) |
 | C04 | `f401b3b` | `mount("/"){GET ""}; <a request is served>; mount("/"){use "/"}`: the second sub-app was never expanded -- the `sync.Once` guards of the mount expansion had been consumed by the first startup (found when `Mount.tla` got the `Serve` action) |
+| C02 | `b7b6f7a` | a route registered as `/\\*` (escaped star: the literal path `/*`) handled every request, while its parser and `RoutePatternMatch` match `/*` only (found when every endpoint route of the C02 replay got its escape twin registered behind it) |
+| C15 | `fb5d6ec` | `Reset()` cleared the data that holds the absolute deadline and set none for the new session: a session reset by a handler never expired absolutely (found by the thorough tier once `ByIDSave` kept sessions in use past their deadline) |
 | C18 | `fbc241a` | client timeout released a Response the worker was about to fill (`acquire answer cancel deliver`) |
 | C18 | `fd7a868` | path parameter value `a b&c=d?e` arrived cut at `?` |
 | C10 | `a7429d1` `b3a2d9c` | `Secure()` false on https; proxy listed as `2001:DB8::1` not trusted for peer `2001:db8::1` |
